@@ -112,6 +112,7 @@ def run_world(scn, schedule=(), policy=None):
 
 def run(ctx):
     H = _H()
+    ctx.translate({"GenPreds"})      # C04_deferred_close_loses_nothing is stated over the regenerated handle_write predicates
     ctx.gate()
     props_ok, failing, log = ctx.props()
     okx, _, _ = ctx.build(["Model/ChanPipe.vo", "Proof/ChanPipeExamples.vo"])
